@@ -22,6 +22,10 @@ EXTRA = {   # additional checks expected to notice a mutant
     'C18-int-hash-and-mask': ['C13'],
     'C14-retry-removes-staged-file': ['C08'],
     'C15-rlock-pid-frozen': [],
+    'C11-writes-list-never-cleared': ['C06'],
+    'C19-pop-select-outside': ['C05'],
+    'C18-init-overwrites-metadata': ['C05'],
+    'C08-remove-committed-any-txn': ['C06'],
 }
 
 
@@ -63,6 +67,37 @@ def one(sid, tier):
     return sid, res
 
 
+def write_table(tier):
+    """MATRIX.md from every seeded/<id>/meta.json (all rounds)."""
+    rows = []
+    for sid in sorted(os.listdir(SEEDED)):
+        mp = os.path.join(SEEDED, sid, 'meta.json')
+        if not os.path.exists(mp):
+            continue
+        meta = json.load(open(mp))
+        rows.append((sid, meta['property'], meta.get('runs', {}).get(tier),
+                     meta.get('detected_by', [])))
+    with open(os.path.join(SEEDED, 'MATRIX.md'), 'w') as f:
+        f.write('# Seeded mutants vs checks (%s tier)\n\n' % tier)
+        f.write('%d mutants; check -> exit code (number of VIOLATION '
+                'lines)\n\n' % len(rows))
+        f.write('| mutant | property | check -> exit (violation lines) | '
+                'first witness |\n|---|---|---|---|\n')
+        for sid, prop, res, det in rows:
+            if not res:
+                f.write('| %s | %s | not run | |\n' % (sid, prop))
+                continue
+            if 'error' in res:
+                f.write('| %s | %s | %s | |\n' % (sid, prop, res['error']))
+                continue
+            cell = ', '.join('%s -> %d (%d)' % (p, r['exit'],
+                                                 r['violation_lines'])
+                             for p, r in res.items())
+            first = next((r['first'] for r in res.values() if r['first']), '')
+            f.write('| %s | %s | %s | %s |\n' % (
+                sid, prop, cell, first.replace('|', '/')))
+
+
 def main():
     tier = os.environ.get('VERIF_TIER', 'quick')
     ids = sorted(d for d in os.listdir(SEEDED)
@@ -82,20 +117,7 @@ def main():
             rows.append((sid, meta['property'], res))
             print(sid, {p: (r.get('exit') if isinstance(r, dict) else r)
                         for p, r in res.items()}, flush=True)
-    with open(os.path.join(SEEDED, 'MATRIX.md'), 'w') as f:
-        f.write('# Seeded mutants vs checks (%s tier)\n\n' % tier)
-        f.write('| mutant | property | check -> exit (violation lines) | '
-                'first witness |\n|---|---|---|---|\n')
-        for sid, prop, res in sorted(rows):
-            if 'error' in res:
-                f.write('| %s | %s | %s | |\n' % (sid, prop, res['error']))
-                continue
-            cell = ', '.join('%s -> %d (%d)' % (p, r['exit'],
-                                                 r['violation_lines'])
-                             for p, r in res.items())
-            first = next((r['first'] for r in res.values() if r['first']), '')
-            f.write('| %s | %s | %s | %s |\n' % (
-                sid, prop, cell, first.replace('|', '/')))
+    write_table(tier)
     missed = [sid for sid, prop, res in rows
               if 'error' in res or not any(r.get('exit') == 1
                                            for r in res.values())]
